@@ -523,7 +523,7 @@ var Prop = &harness.Prop{
 				u = append(u, derUnit(i), rejectUnit(i))
 			}
 		}
-		u = append(u, coincidenceUnit())
+		u = append(u, coincidenceUnit(), interleaveUnit())
 		return u
 	},
 }
